@@ -275,6 +275,36 @@ func checkC19(c *vsched.RunCtx) {
 			}
 		}
 	}
+	// forwarded messages: the output of the codec decoded into a message without
+	// known fields (all bytes become unknown fields, starting with a *valid*
+	// checksum field) and marshalled again: one more field must be prepended
+	if c.Shard == 0 {
+		for _, inner := range []proto.Message{&emptypb.Empty{}, wrapperspb.String("abc"), wrapperspb.Int64(5), &structpb.ListValue{Values: []*structpb.Value{structpb.NewBoolValue(true)}}} {
+			first, err := codec.Marshal(inner)
+			if err != nil {
+				continue
+			}
+			for _, shell := range []proto.Message{&emptypb.Empty{}, wrapperspb.String(""), &structpb.Struct{}} {
+				st.Execs++
+				shell.ProtoReflect().SetUnknown(append([]byte{}, first...))
+				out, err := codec.Marshal(shell)
+				desc := fmt.Sprintf("forwarded %T inside %T", inner, shell)
+				if err != nil {
+					report("C19.M", "Marshal fails on a forwarded message", desc+": "+err.Error())
+					continue
+				}
+				if len(out) != len(first)+6 || out[0] != 0xFD || out[1] != 0x7F || !bytes.Equal(out[6:], first) {
+					report("C19.M", "no checksum field prepended to a message whose unknown fields already start with a valid checksum field", fmt.Sprintf("%s: input % x output % x", desc, head(first), head(out)))
+					continue
+				}
+				crc := uint32(out[2]) | uint32(out[3])<<8 | uint32(out[4])<<16 | uint32(out[5])<<24
+				if crc != crc32cBitwise(out[6:]) {
+					report("C19.M", "checksum field is not the little-endian CRC32C of the standard encoding", desc)
+				}
+				nt[desc] = true
+			}
+		}
+	}
 	// every shard: the small messages again, interleaved, then all kept outputs are compared with their snapshots
 	for _, v := range []int64{0, 1, 2} {
 		o, _ := codec.Marshal(wrapperspb.Int64(v))
